@@ -639,7 +639,7 @@ pub fn classdef_case(ctx: &mut Ctx, idx: usize, rng: &mut Rng) {
 }
 
 pub fn run(ctx: &mut Ctx) {
-    let n = ctx.tier.pick(4000usize, 40000);
+    let n = ctx.tier.pick(4000usize, 100000);
     for i in 0..n {
         if !ctx.mine(i) {
             continue;
